@@ -45,7 +45,7 @@ EvInit ==
   /\ Rec.e = "init"
   /\ g' = Rec /\ content' = {} /\ indexed' = {} /\ stray' = {}
   /\ tags' = [r \in Rng(Rec.refs) |-> 0]
-  /\ tagann' = [r \in Rng(Rec.refs) |-> ""]
+  /\ tagann' = [r \in Rng(Rec.refs) |-> <<"", "">>]
   /\ par' = <<>> /\ lost' = FALSE /\ gclo' = <<>>
   /\ UNCHANGED viol
 
@@ -54,7 +54,7 @@ EvOp ==
   /\ Rec.e = "op" /\ Rec.op \in {"push", "pushbad", "tag", "untag", "delete", "gc", "stray"}
   /\ LET x == Expect(Rec) IN
      /\ content' = x.content /\ stray' = x.stray /\ tags' = x.tags /\ indexed' = x.indexed
-     /\ tagann' = IF Rec.op = "tag" /\ x.res = "ok" THEN [tagann EXCEPT ![Rec.ref] = Rec.ann] ELSE tagann
+     /\ tagann' = IF Rec.op = "tag" /\ x.res = "ok" THEN [tagann EXCEPT ![Rec.ref] = <<Rec.ann, Rec.rn>>] ELSE tagann
      /\ V({<<"OpResult", Rec.res = x.res>>,
            <<"NoHang", Rec.res # "hang">>})
   /\ gclo' = IF Rec.op = "gc" /\ IsOci THEN <<GCIndexLower(Present, tags, indexed)>> ELSE gclo
@@ -82,11 +82,12 @@ ObsChecksIx(o, pfx, ix) ==
   {<<pfx \o "Exists", Rng(o.exists) = Present>>,
    <<pfx \o "Fetch", Rng(o.fetchok) = Present>>,
    <<pfx \o "Tags", {<<o.tags[i][1], o.tags[i][2]>> : i \in 1..Len(o.tags)} = TagPairs(tags)>>,
-   <<pfx \o "TagAnnotations", \A i \in 1..Len(o.tags) : o.tags[i][1] \in Refs => o.tags[i][3] = tagann[o.tags[i][1]]>>,
+   <<pfx \o "TagAnnotations", \A i \in 1..Len(o.tags) : o.tags[i][1] \in Refs => o.tags[i][3] = tagann[o.tags[i][1]][1]>>,
    <<pfx \o "ExistsPlain", Rng(o.existsplain) = Present /\ Rng(o.fetchplain) = Present>>,
-   \* the live store answers with the descriptor as it was tagged: the reference-name annotation of index.json (which a
-   \* reopened store may show, C08) is not part of it
-   <<pfx \o "NoRefNameLeak", pfx = "Live" => \A i \in 1..Len(o.tags) : o.tags[i][4] = "">>,
+   \* the live store answers with the descriptor as it was tagged (tagann[ref][2]: the reference-name annotation the
+   \* caller's own descriptor carried, normally none): the reference-name annotation of index.json (which a reopened
+   \* store may show, C08) is not part of it
+   <<pfx \o "NoRefNameLeak", pfx = "Live" => \A i \in 1..Len(o.tags) : o.tags[i][1] \in Refs => o.tags[i][4] = tagann[o.tags[i][1]][2]>>,
    <<pfx \o "Pred", \A n \in Nodes : Rng(o.pred[n]) = Pred(content, n)>>,
    <<pfx \o "PredNoDup", \A n \in Nodes : Len(o.pred[n]) = Cardinality(Rng(o.pred[n]))>>,
    <<pfx \o "ByDigest", IsOci => /\ Rng(o.byindex) = ix
@@ -133,7 +134,7 @@ Cur == [content |-> content, tags |-> tags, indexed |-> indexed, stray |-> stray
 Apply(st, r) ==
   LET x == ExpectOn(st.content, st.tags, st.indexed, st.stray, r) IN
   [content |-> x.content, tags |-> x.tags, indexed |-> x.indexed, stray |-> x.stray,
-   tagann |-> IF r.op = "tag" /\ x.res = "ok" THEN [st.tagann EXCEPT ![r.ref] = r.ann] ELSE st.tagann]
+   tagann |-> IF r.op = "tag" /\ x.res = "ok" THEN [st.tagann EXCEPT ![r.ref] = <<r.ann, r.rn>>] ELSE st.tagann]
 RECURSIVE Finals(_, _)
 Finals(st, K) == IF K = {} THEN {st} ELSE UNION {Finals(Apply(st, par[k]), K \ {k}) : k \in K}
 \* In the memory store the content map is one atomic map: the results of the concurrent Push and Tag calls themselves
@@ -150,7 +151,7 @@ Matches(o, f) ==
   LET pres == f.content \cup f.stray IN
   /\ Rng(o.exists) = pres /\ Rng(o.fetchok) = pres /\ Rng(o.existsplain) = pres /\ Rng(o.fetchplain) = pres
   /\ {<<o.tags[i][1], o.tags[i][2]>> : i \in 1..Len(o.tags)} = {<<r, f.tags[r]>> : r \in {q \in Refs : f.tags[q] # 0}}
-  /\ \A i \in 1..Len(o.tags) : o.tags[i][1] \in Refs => o.tags[i][3] = f.tagann[o.tags[i][1]]
+  /\ \A i \in 1..Len(o.tags) : o.tags[i][1] \in Refs => o.tags[i][3] = f.tagann[o.tags[i][1]][1]
   /\ \A n \in Nodes : Rng(o.pred[n]) = Pred(f.content, n)
   /\ (IsOci => /\ Rng(o.byblob) = pres \ Rng(o.byindex)
                 /\ IF \E k \in 1..Len(par) : par[k].op = "gc"      \* a GC in the tail: the index within its bounds
